@@ -483,6 +483,10 @@ class Model:
             if callee.cls is not None:
                 m = I.find_method(callee.cls, "__call__")
                 if m is not None:
+                    if I.call_hook is not None:          # hooks see the __call__ of a callable object under its qualified name
+                        r_ = I.call_hook(I, m.qualname, list(pos), dict(kw), node)
+                        if r_ is not NotImplemented:
+                            return r_
                     m.bound_self = callee
                     self.log("inline", node, callee=f"{m.mod.name}:{m.qualname}")
                     return I.call_function(m, pos, kw, node)
